@@ -1,6 +1,6 @@
 """Which rules exist, which properties are claimed, their floors and evidence texts."""
 
-RULE_MODULES = ['descent', 'null', 'live', 'gate', 'immobile', 'reset', 'pool', 'stale', 'layer', 'twin', 'listsearch', 'steps', 'segflow', 'unchecked', 'panicsite', 'links', 'alloc', 'entity', 'inorder', 'progress', 'sizing', 'bypass', 'deficit']   # alloc after pool and links: it reads their verdicts
+RULE_MODULES = ['descent', 'null', 'live', 'gate', 'immobile', 'reset', 'pool', 'stale', 'layer', 'twin', 'listsearch', 'steps', 'segflow', 'unchecked', 'panicsite', 'links', 'alloc', 'entity', 'inorder', 'progress', 'sizing', 'bypass', 'deficit', 'heapmask']   # alloc after pool and links: it reads their verdicts
 
 # rule ids produced by modules that host more than one rule (used to attribute an internal error of a module)
 MODULE_RULES = {'steps': ['ENDSENT', 'NEIGHBOUR', 'HANDLE'], 'links': ['LINKPAIR', 'NILSTATE', 'COLOR', 'CLIMB', 'FRESH', 'DROP', 'ROOTTEST'], 'deficit': ['DEFICIT', 'REDRED'], 'bypass': ['BYPASS'],
@@ -167,6 +167,26 @@ same term plus a non-negative constant (every place is backed by storage) [SIZIN
 ilog2 / leading_zeros / shifts (taken as documented), monotonicity of the heap numbering (C15).""",
      ["documented semantics of u64::ilog2 / leading_zeros / >> ; C15 (places of a bucket range lie at or below the heap index of its last bucket)"],
      {'SIZING': 6})
+
+prop('C15', """
+Static analysis (MIR/SSA: constant propagation of the index slice, effect summaries of the loop body, exponent algebra).
+The range arguments and the mask words stay opaque; nothing is evaluated on an input. Decided clauses: the positions the two
+mask functions touch are a compile-time constant of the program - the analysis folds the loop counters (loops with constant
+trip counts are unrolled in the analysis) and summarises every round as `word[j] |= f(word[i1], word[i2])` with f given by
+its truth table over the bits read. Visit mask: the summaries are exactly, for every internal node p of the 2^POWER-leaf
+implicit heap, once, after its internal children: W[p] |= W[2p+1] OR W[2p+2], and the result is W (upward closure of the
+leaf bits). Place mask: exactly, for every internal node once, children first: W[p] |= W[2p+1] AND W[2p+2] (a parent absorbs
+two selected children), M[c] |= W[c] AND NOT(both children of its parent) for both children (an unabsorbed selected child is
+emitted), the result is M started at 0, and the only other answer is the constant root bit, given exactly for the whole
+domain (the test in front of it, a comparison of linear forms of the two coordinates, holds for (0, leaves-1) and no other
+range). Leaves: both masks start from the same fill of (start, end) in that order, a coordinate is moved to its leaf by
+adding 2^POWER - 1, and the fill, as a sum of powers of two modulo 2^64, is 2^(last+1) - 2^first [HEAPMASK]. The tree stores
+through the place mask and queries through the visit mask of (min, max) [SEGFLOW]. From these the stored-at places are the
+maximal nodes all of whose leaves are selected (they tile [a,b]) and the visited places are the nodes with a selected leaf
+below: they meet iff the ranges share a bucket (paper argument, DESIGN 10.17). NOT decided: the count bound (at most 8
+copies); a mask computed in a shape the folding cannot follow (closed forms, closures) is reported as undecided.""",
+     ["two's-complement semantics of << >> & | ^ ! on u64 as documented", "the paper argument from the decided clauses to the overlap equivalence (DESIGN 10.17)"],
+     {'HEAPMASK': 4, 'SEGFLOW': 2})
 
 prop('C16', """
 Static analysis (MIR/SSA). Decided clauses: on the expired side of the expiry test (expiration < time) the scanned copy
